@@ -215,11 +215,19 @@ class VLoop(asyncio.BaseEventLoop):
         asyncio.set_event_loop(None)
 
     def collect_errors(self) -> List[dict]:
-        try:
-            gc.collect(1)
-        except RuntimeError:
-            pass
-        return list(self.errors)
+        """Everything the loop's exception handler saw, after a full garbage collection (so that
+        'Task was destroyed but it is pending' / 'exception was never retrieved' reports do not depend on
+        when the collector happens to run), de-duplicated and in a canonical order."""
+        for _ in range(2):
+            try:
+                gc.collect()
+            except RuntimeError:
+                pass
+        seen = {}
+        for e in self.errors:
+            key = (e.get("message") or "", e.get("exception") or "")
+            seen.setdefault(key, {"message": key[0], "exception": e.get("exception"), "detail": None})
+        return [seen[k] for k in sorted(seen)]
 
 
 # ---------------------------------------------------------------------------
